@@ -41,6 +41,13 @@ def run(tier, replay=None):
     cases, mism, _, _ = C.emit_and_replay(run, "MC_Reloader", cfg, "c15_rl_" + tier, ["reloader"], timeout=2400, workers=8)
     for m in mism:
         run.mismatch({"kind": m["mismatch"]["what"], "part": "reloader"}, m)
+    # long edit / poll histories (up to 200 steps, ending when the rate is removed), sampled by TLC's simulation mode
+    dcases, dmism, _, _ = C.emit_and_replay(run, "MC_Reloader", "MC_Reloader_deep.cfg", "c15_rl_deep", ["reloader"], timeout=1200,
+                                            workers=1, simulate=300 if tier == "quick" else 5000, depth=260)
+    for m in dmism:
+        run.mismatch({"kind": m["mismatch"]["what"], "part": "reloader", "mode": "simulate"}, m)
+    run.extra["simulated_long_reloader_histories"] = len(dcases)
+    run.extra["longest_simulated_reloader_history"] = max(len(c["ops"]) for c in dcases)
     # --- the reloader thread itself: traces of init_file's refresh thread (sleep / edit / apply events, all emitted
     # on that thread) must be behaviours of Reloader.tla where every sleep lasts the current rate
     ltp = os.path.join(wd, "reloadlive.ndjson")
